@@ -9,6 +9,7 @@ import (
 	"time"
 
 	"github.com/crillab/gophersat/bf"
+	"github.com/crillab/gophersat/solver"
 )
 
 // FNode is a formula as the user builds it with package bf's constructors.
@@ -164,6 +165,46 @@ func genBfCase(r *Rng, tier string, positiveUnique bool) BfCase {
 	return BfCase{K: k, F: genFormula(r, k, r.Range(1, 4), 1, positiveUnique)}
 }
 
+// genTwoUnique: a conjunction with two exactly-one groups of the same size (5..6 names) that
+// share their first and last name (positive positions only), optionally with a few literals.
+func genTwoUnique(r *Rng, tier string) BfCase {
+	k := r.Range(8, 9)
+	sz := 5
+	if k == 9 && r.Bool() {
+		sz = 6
+	}
+	p := r.Perm(k)
+	first, last := p[0], p[1]
+	rest := p[2:]
+	g1 := append([]int{first}, rest[:sz-2]...)
+	g1 = append(g1, last)
+	mid := append([]int{}, rest[sz-2:]...)
+	for len(mid) < sz-2 { // not enough fresh names: reuse some of the first group's
+		mid = append(mid, rest[r.Intn(sz-2)])
+	}
+	seen := map[int]bool{}
+	var mid2 []int
+	for _, x := range mid {
+		if !seen[x] {
+			seen[x] = true
+			mid2 = append(mid2, x)
+		}
+	}
+	for i := 0; len(mid2) < sz-2; i++ {
+		if !seen[rest[i]] {
+			seen[rest[i]] = true
+			mid2 = append(mid2, rest[i])
+		}
+	}
+	g2 := append([]int{first}, mid2[:sz-2]...)
+	g2 = append(g2, last)
+	kids := []FNode{{Op: "u", Names: g1}, {Op: "u", Names: g2}}
+	if r.Bool() {
+		kids = append(kids, FNode{Op: "o", Kids: []FNode{{Op: "v", Var: r.Intn(k)}, {Op: "n", Kids: []FNode{{Op: "v", Var: r.Intn(k)}}}}})
+	}
+	return BfCase{K: k, F: FNode{Op: "a", Kids: kids}}
+}
+
 func (c *BfCase) classes() []string {
 	var cl []string
 	c.F.walk(1, func(n FNode, pol int) {
@@ -178,8 +219,23 @@ func init() {
 	register(&Prop{
 		ID: "C11",
 		Rule: "formula trees of depth 1..4 over 1..9 names built with package bf's constructors: variables, True/False, Not, And/Or of 0..3 sub-formulas, Implies, Eq, Xor, Unique groups of 0..9 distinct names at any polarity; bf.Solve is compared with the verified truth table (GS.sfSat / GS.SF.eval, standard semantics of each connective). Non-trivial = the formula is neither constant-free trivial nor a single literal (at least one binary connective or Unique group); distinct = distinct tree.",
-		Gens:    []Gen{{Name: "tree", Weight: 1, Make: func(r *Rng, tier string) interface{} { return genBfCase(r, tier, false) }}},
-		Run:     runBfSolveCase,
+		Gens: []Gen{
+			{Name: "tree", Weight: 1, Make: func(r *Rng, tier string) interface{} { return genBfCase(r, tier, false) }},
+			// grid dimensions of Unique for every group size in a range: Go computes them with
+			// float64 square roots, the Lean mirror (GS.BfUnique.natDims) in N
+			{Name: "unique-dims", Enum: func(tier string) []interface{} {
+				top := 400
+				if tier == "thorough" {
+					top = 3000
+				}
+				var res []interface{}
+				for n := 5; n <= top; n += 1 + n/60 {
+					res = append(res, BfCase{K: n, F: FNode{Op: "dims"}})
+				}
+				return res
+			}},
+		},
+		Run: runBfSolveCase,
 		Classify: func(d json.RawMessage) []string {
 			var c BfCase
 			if json.Unmarshal(d, &c) == nil {
@@ -194,8 +250,11 @@ func init() {
 	register(&Prop{
 		ID: "C12",
 		Rule: "formula trees as for C11 but with Unique groups only in positive positions; bf.Dimacs output is parsed (header counts, literal ranges, name comments) and compared with the formula over the whole truth table by the verified GS.exportEquiv: every formula model extends to a model of the export and every model of the export restricts to formula models, eliminated names being unconstrained. Exports with more than 14 variables are only checked for well-formedness. Non-trivial = export with at least 2 clauses; distinct = distinct tree.",
-		Gens:    []Gen{{Name: "tree", Weight: 1, Make: func(r *Rng, tier string) interface{} { return genBfCase(r, tier, true) }}},
-		Run:     runBfDimacsCase,
+		Gens: []Gen{
+			{Name: "tree", Weight: 30, Make: func(r *Rng, tier string) interface{} { return genBfCase(r, tier, true) }},
+			{Name: "two-unique-groups", Weight: 1, Make: func(r *Rng, tier string) interface{} { return genTwoUnique(r, tier) }},
+		},
+		Run: runBfDimacsCase,
 		Cases:   defCases(4000, 100000),
 		Timeout: defDur(10*time.Second, 60*time.Second),
 		Wall:    defDur(50*time.Second, 12*time.Minute),
@@ -217,6 +276,10 @@ func runBfSolveCase(o *Oracle, d json.RawMessage, oc *Outcome) {
 		return
 	}
 	oc.Key = keyOf(c)
+	if c.F.Op == "dims" {
+		runUniqueDims(o, &c, oc)
+		return
+	}
 	oc.Classes = c.classes()
 	f := c.F.toGo()
 	oc.Sample = f.String()
@@ -239,6 +302,17 @@ func runBfSolveCase(o *Oracle, d json.RawMessage, oc *Outcome) {
 		}
 	})
 	wire := c.F.Wire()
+	// bf.Solve = CNF translation + CNF solver: the translation is tied to its Lean mirror
+	// (GS.Bf.asCnf, theorem solve_agrees) byte for byte through bf.Dimacs
+	if a := o.Ask("bfdimacs " + wire); a != "unsupported" {
+		var buf bytes.Buffer
+		if err := bf.Dimacs(f, &buf); err == nil {
+			oc.Corr++
+			if got := strings.ReplaceAll(buf.String(), "\n", "\\n"); got != a {
+				oc.Fail("corr", "dimacs-mirror", "bf.Solve", "the CNF translation differs from its Lean mirror: Go %q, mirror %q for %s", got, a, f.String())
+			}
+		}
+	}
 	truth := o.Ask(fmt.Sprintf("bfsat %d | %s", c.K, wire))
 	m := bf.Solve(f)
 	entry := "bf.Solve"
@@ -351,11 +425,96 @@ func runBfDimacsCase(o *Oracle, d json.RawMessage, oc *Outcome) {
 		return
 	}
 	if nv > 14 {
-		oc.Tag("export>14vars-wellformedness-only")
+		if nv <= 48 && c.K <= 9 {
+			largeExportCheck(o, oc, &c, idx, nv, cnf, f.String())
+			return
+		}
+		oc.Tag("export>48vars-wellformedness-only")
 		return
 	}
 	oc.Tag("export-compared")
 	if a := o.Ask(fmt.Sprintf("bfexport %d | %s | %s | %d | %s", c.K, c.F.Wire(), encInts(idx), nv, encCnf(cnf))); a != "1" {
 		oc.Fail("spec", "export-equivalent", entry, "models of the export restricted to the names differ from the models of %s (export: %q)", f.String(), buf.String())
+	}
+}
+
+
+// runUniqueDims: the number of line and column auxiliaries bf.Unique creates for n names must
+// be the grid dimensions of the Lean mirror (natDims n), read off the formula's String().
+func runUniqueDims(o *Oracle, c *BfCase, oc *Outcome) {
+	n := c.K
+	names := make([]string, n)
+	for i := range names {
+		names[i] = fmt.Sprintf("v%d", i)
+	}
+	full := strings.Join(names, "-")
+	str := bf.Unique(names...).String()
+	toks := strings.FieldsFunc(str, func(r rune) bool { return r == '(' || r == ')' || r == ',' || r == ' ' })
+	lines, cols := map[string]bool{}, map[string]bool{}
+	for _, t := range toks {
+		if strings.HasSuffix(t, "-"+full) {
+			if strings.HasPrefix(t, "line-") && strings.Count(t, "line-") == 1 && !strings.Contains(t, "col-") {
+				lines[t] = true
+			}
+			if strings.HasPrefix(t, "col-") && strings.Count(t, "col-") == 1 && !strings.Contains(t, "line-") {
+				cols[t] = true
+			}
+		}
+	}
+	got := fmt.Sprintf("%d %d", len(lines), len(cols))
+	want := o.Ask(fmt.Sprintf("uniquedims %d", n))
+	oc.Corr++
+	oc.Nontrivial = true
+	oc.Sample = fmt.Sprintf("Unique of %d names: %s lines/cols", n, got)
+	oc.Tag("unique-dims")
+	if got != want {
+		oc.Fail("corr", "unique-dims-mirror", "bf.Unique", "n=%d: Go builds %s line/column auxiliaries, the Lean mirror natDims gives %s", n, got, want)
+	}
+}
+
+
+// largeExportCheck handles exports too large for the exhaustive comparison: for every
+// assignment of the names, the formula's value (GS.SF.eval) must equal "the assignment extends
+// to a model of the export". The extension question is answered by the CNF solver, and that
+// answer is itself verified: a Sat answer by evaluating its model (GS evaluation), an Unsat
+// answer by replaying its certificate through the verified RUP checker.
+func largeExportCheck(o *Oracle, oc *Outcome, c *BfCase, idx []int, nv int, cnf [][]int, fstr string) {
+	oc.Tag("export-compared-by-verified-solving")
+	wire := c.F.Wire()
+	for a := 0; a < 1<<uint(c.K); a++ {
+		vals := make([]bool, c.K)
+		var units [][]int
+		for i := range vals {
+			vals[i] = (a>>uint(i))&1 == 1
+			if idx[i] != 0 {
+				if vals[i] {
+					units = append(units, []int{idx[i]})
+				} else {
+					units = append(units, []int{-idx[i]})
+				}
+			}
+		}
+		want := o.Ask(fmt.Sprintf("bfeval %s | %s", wire, encBools(vals))) == "1"
+		full := append(copyCnf(cnf), units...)
+		cc := CnfCase{NbVars: nv, Clauses: full, Front: "slicenb"}
+		run := solveCnf(&cc, true, 0)
+		var ext bool
+		switch run.status {
+		case solver.Sat:
+			if len(run.model) != nv || o.Eval(nv, cnfLins(full), run.model) != "ok" {
+				oc.Fail("spec", "export-equivalent", "bf.Dimacs", "cannot verify the solver's model of the export for names %v", vals)
+				return
+			}
+			ext = true
+		case solver.Unsat:
+			if _, refutes := o.Rup(nv, full, run.lines); !refutes {
+				oc.Fail("spec", "export-equivalent", "bf.Dimacs", "cannot verify the solver's refutation of the export for names %v", vals)
+				return
+			}
+		}
+		if ext != want {
+			oc.Fail("spec", "export-equivalent", "bf.Dimacs", "names %v: formula is %v but 'extends to a model of the export' is %v, for %s", vals, want, ext, fstr)
+			return
+		}
 	}
 }
